@@ -38,11 +38,20 @@ INVARIANTS = ['RawWellFormed', 'Penrose', 'FamilySeparation', 'CovSane', 'Genera
 COMPANION_IDS = ('c1', 'c2')
 
 
+ROOT = 'MCResultsRun'
+
+
+def root_module(family: str) -> str:
+    """generated root module: only the family of this run is evaluated when TLC starts"""
+    return (f'---- MODULE {ROOT} ----\nEXTENDS MCResults\nRunOutcomes == MC_Family("{family}")\n'
+            '=============================================================================\n')
+
+
 def cfg(family: str, mutant: str = 'none', invariants=INVARIANTS) -> str:
     inv = '\n'.join(f'INVARIANT {i}' for i in invariants)
     return f'''SPECIFICATION Spec
 CONSTANTS
- Outcomes <- {family}
+ Outcomes <- RunOutcomes
  Companions <- MC_Companions
  CompileStats <- MC_CompileStats
  Mutant = "{mutant}"
@@ -56,7 +65,7 @@ def run_tlc(family: str, mutant: str = 'none', **kw):
     machine) is started again, an evaluation error or a verdict is final."""
     res = None
     for _ in range(3):
-        res = tlc.run('MCResults', cfg(family, mutant), **kw)
+        res = tlc.run(ROOT, cfg(family, mutant), extra_modules={ROOT: root_module(family)}, **kw)
         killed = res.error is not None and res.error != 'timeout' and 'Error:' not in res.raw and res.violated is None
         if not killed:
             break
